@@ -1,0 +1,187 @@
+// SPDX-FileCopyrightText: 2014-2024 caixw
+//
+// SPDX-License-Identifier: MIT
+
+//go:build verif
+
+// Contracts for package mux, read by the verification tooling under /verif.
+// This file contains comments only and is excluded from normal builds.
+
+package mux
+
+// ---------------------------------------------------------------- match.go
+
+//@ pred sameParams(a *types.Context, d0 `(Array String Bool)`, v0 `(Array String String)`) =
+//@      dom(a.params) == d0 && (forall x string :: in(x, a.params) ==> a.params[x] == v0[x])
+//
+// The documented Matcher contract (match.go): a rejecting matcher leaves its arguments unchanged.
+//@ fn mux.Matcher.Match
+//@   params recv, r, ctx
+//@   requires r != nil && r.URL != nil && ctx != nil
+//@   modifies url.URL.Path: r.URL
+//@   modifies types.Context.params: ctx
+//@   modifies types.Context.Path: ctx
+//@   modifies types.Context.routerName: ctx
+//@   modifies types.Context.node: ctx
+//@   modifies map[string]string: ctx.params
+//@   ensures [C13] reject-path: !result ==> r.URL.Path == old(r.URL.Path)
+//@   ensures [C13] reject-params: !result ==> dom(ctx.params) == old(dom(ctx.params)) && (forall x string :: ctx.params[x] == old(ctx.params[x]))
+//
+//@ fn mux.MatcherFunc
+//@   params fn, r, ctx
+//@   requires r != nil && r.URL != nil && ctx != nil
+//@   modifies url.URL.Path: r.URL
+//@   modifies types.Context.params: ctx
+//@   modifies types.Context.Path: ctx
+//@   modifies types.Context.routerName: ctx
+//@   modifies types.Context.node: ctx
+//@   modifies map[string]string: ctx.params
+//@   ensures [C13] reject-path: !result ==> r.URL.Path == old(r.URL.Path)
+//@   ensures [C13] reject-params: !result ==> dom(ctx.params) == old(dom(ctx.params)) && (forall x string :: ctx.params[x] == old(ctx.params[x]))
+//
+//@ fn MatcherFunc.Match
+//@   implements mux.Matcher.Match
+//@   requires f != nil
+//
+//@ fn anyRouter
+//@   nopanic
+//@   ensures [C13] always: result
+//
+//@ pred isDigit(b byte) = '0' <= b && b <= '9'
+//
+//@ fn validOptionalPort
+//@   nopanic
+//@   ensures [C14] spec: result <==> (port == "" || (port[0] == ':' && (forall i int :: 1 <= i && i < len(port) ==> isDigit(port[i]))))
+//@   inv 1 [C14] pos: 0 <= iterpos(1) && (len(port) >= 1 && port[0] == ':')
+//@   inv 1 [C14] digits: forall i int :: 1 <= i && i < 1 + iterpos(1) && i < len(port) ==> isDigit(port[i])
+//
+//@ pred pvValid(s string) = len(s) >= 1 && s[0] == '/' && s[len(s)-1] == '/'
+//@ pred pvAll(v *pathVersion) = forall i int :: 0 <= i && i < len(v.versions) ==> pvValid(v.versions[i])
+//
+//@ fn pathVersion.Match
+//@   implements mux.Matcher.Match
+//@   requires v != nil && pvAll(v)
+//@   nopanic
+//@   ensures [C15] accept: result <==> (exists i int :: 0 <= i && i < len(v.versions) && hasPrefix(old(r.URL.Path), v.versions[i]))
+//@   ensures [C15] first: result ==> (exists i int :: 0 <= i && i < len(v.versions) && hasPrefix(old(r.URL.Path), v.versions[i]) &&
+//@        (forall j int :: 0 <= j && j < i ==> !hasPrefix(old(r.URL.Path), v.versions[j])) &&
+//@        r.URL.Path == old(r.URL.Path)[len(v.versions[i])-1:] &&
+//@        (v.paramName != "" ==> ctx.params[v.paramName] == v.versions[i][:len(v.versions[i])-1]))
+//@   ensures [C15] keeps-slash: result ==> hasPrefix(r.URL.Path, "/")
+//@   ensures [C15] others: result ==> (forall x string :: x != v.paramName ==> ctx.params[x] == old(ctx.params[x]))
+//@   ensures [C15] noparam: result && v.paramName == "" ==> dom(ctx.params) == old(dom(ctx.params)) && (forall x string :: ctx.params[x] == old(ctx.params[x]))
+//@   inv 1 [C15] bound: -1 <= rangeindex && rangeindex < len(v.versions)
+//@   inv 1 [C15] nomatch: forall j int :: 0 <= j && j <= rangeindex ==> !hasPrefix(r.URL.Path, v.versions[j])
+//
+//@ fn NewPathVersion
+//@   maypanic
+//@   ensures [C15] type: typeis(result, "*pathVersion") && unbox(result, "*pathVersion") != nil
+//@   ensures [C15] valid: pvAll(unbox(result, "*pathVersion"))
+//@   ensures [C15] name: unbox(result, "*pathVersion").paramName == param
+//@   ensures [C15] count: len(unbox(result, "*pathVersion").versions) == len(version)
+//@   inv 1 [C15] bound: -1 <= rangeindex && rangeindex < len(version)
+//@   inv 1 [C15] done: forall j int :: 0 <= j && j <= rangeindex ==> pvValid(version[j])
+//
+//@ fn headerVersion.Match
+//@   implements mux.Matcher.Match
+//@   requires v != nil && r.Header != nil && v.errlog != nil
+//@   ensures [C15] accept: result <==> (old(r.Header.first)["Accept"] != "" && pure2("mime.ParseMediaType", old(r.Header.first)["Accept"]) == nil &&
+//@        (exists i int :: 0 <= i && i < len(v.versions) && v.versions[i] == pure1("mime.ParseMediaType", old(r.Header.first)["Accept"])[v.acceptKey]))
+//@   ensures [C15] record: result && v.paramName != "" ==> ctx.params[v.paramName] == pure1("mime.ParseMediaType", old(r.Header.first)["Accept"])[v.acceptKey]
+//@   ensures [C15] others: result ==> (forall x string :: x != v.paramName ==> ctx.params[x] == old(ctx.params[x]))
+//@   ensures [C15] path: r.URL.Path == old(r.URL.Path)
+//@   inv 1 [C15] bound: -1 <= rangeindex && rangeindex < len(v.versions)
+//@   inv 1 [C15] nomatch: forall j int :: 0 <= j && j <= rangeindex ==> v.versions[j] != ver
+//
+//@ fn NewHeaderVersion
+//@   nopanic
+//@   ensures [C15] type: typeis(result, "*headerVersion") && unbox(result, "*headerVersion") != nil
+//@   ensures [C15] fields: unbox(result, "*headerVersion").paramName == param && unbox(result, "*headerVersion").errlog != nil &&
+//@        unbox(result, "*headerVersion").acceptKey == ((key == "") ? "version" : key)
+
+// ---------------------------------------------------------------- options.go: CORS
+
+//@ pred inList(l []string, v string) = exists i int :: 0 <= i && i < len(l) && l[i] == v
+//@ pred inListFold(l []string, v string) = exists i int :: 0 <= i && i < len(l) && pure0("strings.EqualFold", l[i], v)
+//
+// corsValid: what sanitize establishes and nothing later changes (cors fields are written by sanitize and WithCORS only).
+//@ pred corsValid(c *cors) = c != nil && (c.anyOrigins <==> inList(c.Origins, "*")) && (c.deny <==> len(c.Origins) == 0) &&
+//@      !(c.anyOrigins && c.AllowCredentials) && (c.anyHeaders <==> inList(c.AllowHeaders, "*"))
+//
+//@ fn cors.sanitize
+//@   requires c != nil && !c.anyOrigins && !c.anyHeaders && !c.deny
+//@   nopanic
+//@   modifies mux.cors.anyOrigins: c
+//@   modifies mux.cors.deny: c
+//@   modifies mux.cors.anyHeaders: c
+//@   modifies mux.cors.allowHeadersString: c
+//@   modifies mux.cors.exposedHeadersString: c
+//@   modifies mux.cors.maxAgeString: c
+//@   ensures [C11,C12] valid: result == nil ==> corsValid(c)
+//@   ensures [C11] nocreds: c.anyOrigins && c.AllowCredentials ==> result != nil
+//
+//@ pred reqMethod(r *http.Request) = r.Header.first["Access-Control-Request-Method"]
+//@ pred reqOrigin(r *http.Request) = r.Header.first["Origin"]
+//@ pred isPreflight(r *http.Request) = r.Method == "OPTIONS" && reqMethod(r) != "" && r.URL.Path != "*"
+//@ pred reqHdrs(r *http.Request) = pure0("strings.TrimSpace", r.Header.first["Access-Control-Request-Headers"])
+//@ pred hdrParts(r *http.Request) = pure0("strings.Split", reqHdrs(r), ",")
+//@ opaque pred allowedFoldV(any bool, hs string, allow []string) = any || hs == "" ||
+//@      (forall k int :: 0 <= k && k < len(pure0("strings.Split", hs, ",")) ==> inListFold(allow, pure0("strings.TrimSpace", pure0("strings.Split", hs, ",")[k])))
+//@ pred hdrsAllowedFold(c *cors, r *http.Request) = allowedFoldV(c.anyHeaders, reqHdrs(r), c.AllowHeaders)
+//@ pred originOK(c *cors, r *http.Request) = c.anyOrigins || inList(c.Origins, reqOrigin(r))
+//@ pred hdrUnchanged(wh http.Header, f0 `(Array String String)`, a0 `(Array String (Array String Bool))`) = wh.first == f0 && wh.all == a0
+//
+//@ fn containsFold
+//@   nopanic
+//@   ensures [C11,C12] spec: result <==> inListFold(list, v)
+//@   inv 1 [C11,C12] bound: -1 <= rangeindex && rangeindex < len(list)
+//@   inv 1 [C11,C12] none: forall k int :: 0 <= k && k <= rangeindex ==> !pure0("strings.EqualFold", list[k], v)
+//
+//@ fn cors.headerIsAllowed
+//@   requires c != nil && r != nil && r.Header != nil
+//@   nopanic
+//@   ensures [C11] sound: result ==> hdrsAllowedFold(c, r)
+//@   ensures [C12] complete: hdrsAllowedFold(c, r) ==> result
+//@   inv 1 [C11,C12] bound: -1 <= rangeindex && rangeindex < len(hdrParts(r))
+//@   inv 1 [C11,C12] sofar: forall k int :: 0 <= k && k <= rangeindex ==> inListFold(c.AllowHeaders, pure0("strings.TrimSpace", hdrParts(r)[k]))
+//
+//@ fn cors.handle
+//@   requires corsValid(c) && r != nil && r.URL != nil && r.Header != nil && wh != nil && node != nil && wh != r.Header
+//@   nopanic
+//@   modifies http.Header.first: wh
+//@   modifies http.Header.all: wh
+//@   ensures [C11] acao-sound: wh.first["Access-Control-Allow-Origin"] != old(wh.first)["Access-Control-Allow-Origin"] ==>
+//@        ((c.anyOrigins && wh.first["Access-Control-Allow-Origin"] == "*") ||
+//@         (!c.anyOrigins && inList(c.Origins, reqOrigin(r)) && wh.first["Access-Control-Allow-Origin"] == reqOrigin(r)))
+//@   ensures [C11] creds-sound: wh.first["Access-Control-Allow-Credentials"] != old(wh.first)["Access-Control-Allow-Credentials"] ==>
+//@        (wh.first["Access-Control-Allow-Credentials"] == "true" && !c.anyOrigins && inList(c.Origins, reqOrigin(r)) &&
+//@         wh.first["Access-Control-Allow-Origin"] == reqOrigin(r))
+//@   ensures [C11] deny: c.deny ==> hdrUnchanged(wh, old(wh.first), old(wh.all))
+//@   ensures [C11] preflight-method: isPreflight(r) && !inList(nodeMethods(node), reqMethod(r)) ==> hdrUnchanged(wh, old(wh.first), old(wh.all))
+//@   ensures [C11] preflight-header: isPreflight(r) && !hdrsAllowedFold(c, r) ==>
+//@        wh.first["Access-Control-Allow-Origin"] == old(wh.first)["Access-Control-Allow-Origin"] &&
+//@        wh.first["Access-Control-Allow-Credentials"] == old(wh.first)["Access-Control-Allow-Credentials"]
+//@   ensures [C11] bad-origin: !originOK(c, r) ==>
+//@        wh.first["Access-Control-Allow-Origin"] == old(wh.first)["Access-Control-Allow-Origin"] &&
+//@        wh.first["Access-Control-Allow-Credentials"] == old(wh.first)["Access-Control-Allow-Credentials"]
+//@   ensures [C12] grant-origin: !c.deny && originOK(c, r) && (isPreflight(r) ==> inList(nodeMethods(node), reqMethod(r)) && hdrsAllowedFold(c, r)) ==>
+//@        wh.first["Access-Control-Allow-Origin"] == (c.anyOrigins ? "*" : reqOrigin(r)) &&
+//@        (c.AllowCredentials ==> wh.first["Access-Control-Allow-Credentials"] == "true") &&
+//@        (!c.AllowCredentials ==> wh.first["Access-Control-Allow-Credentials"] == old(wh.first)["Access-Control-Allow-Credentials"]) &&
+//@        (c.exposedHeadersString != "" ==> wh.first["Access-Control-Expose-Headers"] == c.exposedHeadersString) &&
+//@        (c.exposedHeadersString == "" ==> wh.first["Access-Control-Expose-Headers"] == old(wh.first)["Access-Control-Expose-Headers"])
+//@   ensures [C12] grant-preflight: !c.deny && originOK(c, r) && isPreflight(r) && inList(nodeMethods(node), reqMethod(r)) && hdrsAllowedFold(c, r) ==>
+//@        wh.first["Access-Control-Allow-Methods"] == nodeAllow(node) &&
+//@        (c.allowHeadersString != "" ==> wh.first["Access-Control-Allow-Headers"] == c.allowHeadersString) &&
+//@        (c.maxAgeString != "" ==> wh.first["Access-Control-Max-Age"] == c.maxAgeString)
+//@   ensures [C12] not-preflight: !isPreflight(r) ==>
+//@        wh.first["Access-Control-Allow-Methods"] == old(wh.first)["Access-Control-Allow-Methods"] &&
+//@        wh.first["Access-Control-Allow-Headers"] == old(wh.first)["Access-Control-Allow-Headers"] &&
+//@        wh.first["Access-Control-Max-Age"] == old(wh.first)["Access-Control-Max-Age"]
+//@   ensures [C12] vary-origin: !c.deny && originOK(c, r) && (isPreflight(r) ==> inList(nodeMethods(node), reqMethod(r)) && hdrsAllowedFold(c, r)) ==>
+//@        (!c.anyOrigins ==> wh.all["Vary"]["Origin"])
+//@   ensures [C12] vary-preflight: !c.deny && isPreflight(r) && inList(nodeMethods(node), reqMethod(r)) ==> wh.all["Vary"]["Access-Control-Request-Method"]
+//@   ensures [C12] vary-headers: !c.deny && isPreflight(r) && inList(nodeMethods(node), reqMethod(r)) && hdrsAllowedFold(c, r) && c.allowHeadersString != "" ==>
+//@        wh.all["Vary"]["Access-Control-Request-Headers"]
+//@   ensures [C12] vary-only-request-names: forall x string :: wh.all["Vary"][x] && !old(wh.all)["Vary"][x] ==>
+//@        (x == "Origin" || x == "Access-Control-Request-Method" || x == "Access-Control-Request-Headers")
